@@ -70,7 +70,7 @@ def run(ctx):
             (sorted(["discr(a1)=%s" % lit, "is_ok(%s)=False" % P]), "core::result::Result::Err{darling_core::error::Error::with_span(From::from((%s as Err).0), a1)}" % P),
             (sorted(["discr(a1)=Str", "is_ok(%s)=True" % FS]), "core::result::Result::Ok{(%s as Ok).0}" % FS),
             (sorted(["discr(a1)=Str", "is_ok(%s)=False" % FS]), "core::result::Result::Err{darling_core::error::Error::with_span((%s as Err).0, a1)}" % FS),
-            (["discr(a1)=('not-in', %r)" % (kinds,)], "core::result::Result::Err{darling_core::error::Error::with_span(darling_core::error::Error::unexpected_lit_type(a1), a1)}"),
+            (["discr(a1)=('not-in', %r)" % (kinds,)], "core::result::Result::Err{darling_core::error::Error::unexpected_lit_type(a1)}"),
         ])
         ctx.ob("C11.F.unquoted-parser", f.key, "from_value case table", txt == want, "cases %s" % [(c, v[:110]) for c, v in txt if (c, v) not in want][:3])
         pc_ = [resalg.find_call(v, parser) or next((resalg.find_call(e, parser) for e, _ in c if resalg.find_call(e, parser)), None) for c, v in rows]
@@ -107,7 +107,16 @@ def run(ctx):
     f, fb = bodies_of(ctx, "bool", "from_string")
     if f:
         ps = ctx.find_calls(f, r"^core::str::<impl str>::parse$")
-        ctx.ob("C11.F.bool-quoted-parser", f.key, "str::parse::<bool>", len(ps) == 1 and mir.callee_info(ps[0][1]).get("targs") == ["bool"], "%s" % [mir.callee_info(t).get("targs") for _, t in ps])
+        ok = len(ps) == 1 and mir.callee_info(ps[0][1]).get("targs") == ["bool"]
+        if not ps:
+            # what `str::parse::<bool>` accepts, written out: exactly "true" and "false"
+            cs = resalg.cases(ctx, f)
+            EQ = 'core::str::traits::<impl core::cmp::PartialEq for str>::eq(a1, "%s")=%s'
+            want = sorted([([EQ % ("true", "True")], "core::result::Result::Ok{true}"),
+                           (sorted([EQ % ("true", "False"), EQ % ("false", "True")]), "core::result::Result::Ok{false}"),
+                           (sorted([EQ % ("true", "False"), EQ % ("false", "False")]), "core::result::Result::Err{darling_core::error::Error::unknown_value(a1)}")])
+            ok = sorted((sorted(c), v) for c, v in cs) == want
+        ctx.ob("C11.F.bool-quoted-parser", f.key, "str::parse::<bool>", ok, "%s" % [mir.callee_info(t).get("targs") for _, t in ps])
     f, _ = bodies_of(ctx, "char", "from_char")
     if f:
         rs = ctx.ret_values(f)
@@ -115,10 +124,20 @@ def run(ctx):
     f, _ = bodies_of(ctx, "char", "from_string")
     if f:
         oks = ctx.find_aggregates(f, r"^core::result::Result$", "Ok")
-        ctx.ob("C11.G.char-one-character", f.key, "one Ok", len(oks) == 1, "%d" % len(oks))
+        nx = ctx.find_calls_deep(f, r"core::str::iter::Chars<'_> as core::iter::traits::iterator::Iterator>::next$|Chars.*Iterator>::next$")
+        # the same test as a combinator chain: `chars.next().filter(|_| chars.next().is_none()).ok_or_else(..)`
+        chain = False
+        if not oks:
+            rv = ctx.ret_values(f)
+            for _, t_ in ctx.find_calls(f, r"^core::option::Option::<T>::filter$"):
+                a0, a1 = ctx.expr(f, t_["args"][0]), ctx.expr(f, t_["args"][1])
+                cl = [c for c in ctx.closures_of(f) if c.key in a1]
+                tc = ctx.true_conditions(cl[0]) if len(cl) == 1 else None
+                chain = "Iterator>::next(" in a0 and tc is not None and len(tc) == 1 and len(tc[0]) == 1 and re.match(r"^is_some\(.*Iterator>::next\(.*\)\)=False$", list(tc[0])[0]) is not None \
+                    and len(rv) == 1 and rv[0].startswith("core::option::Option::<T>::ok_or_else(core::option::Option::<T>::filter(")
+        ctx.ob("C11.G.char-one-character", f.key, "one Ok", len(oks) == 1 or chain, "%d Ok constructions; combinator form %s" % (len(oks), chain))
         for blk, i, st in oks:
             ctx.requires("C11.G.char-one-character", f, blk, "Ok(char)", [r"is_some\(.*Iterator>::next\(.*\)\)=True", r"is_some\(.*Iterator>::next\(.*\)\)=False"])
-        nx = ctx.find_calls(f, r"core::str::iter::Chars<'_> as core::iter::traits::iterator::Iterator>::next$|Chars.*Iterator>::next$")
         ctx.ob("C11.G.char-two-probes", f.key, "chars.next() twice", len(nx) == 2, "%d next() calls" % len(nx))
     for ty, conv in (("alloc::string::String", r"to_string\(a1\)|ToString>::to_string\(a1\)|<alloc::string::String as core::convert::From<&str>>::from\(a1\)|ToOwned>::to_owned\(a1\)"), ("std::path::PathBuf", r"Into<.*>>::into\(a1\)|PathBuf.*from\(a1\)|into\(a1\)")):
         f, _ = bodies_of(ctx, ty, "from_string")
